@@ -436,6 +436,20 @@ def rsu_arm(F, rep):
             # not reachable from the lookup call (it is the other arm of `if let Some(awards)`)
             if not b.dominates(i, k):
                 found = True
+    # the cost basis the purchase row carries IS the lookup's: date = its vest_date, price = its fmv, on every path that pushes an RSU
+    # row (per-path synthesis of one row's iteration, shared with C18-R2). A second source — the row's own `Price` used when the
+    # lookup fails (seeded change C19-s9) — emits a cost that comes from no awards entry where the property demands an error.
+    from core import Report
+    r2 = Report("tmp")
+    c18.arm_accounting(F, r2)
+    n = 0
+    for o in r2.obligations:
+        ins = o["instance"]
+        if "StockPlanActivity" in ins and ins.rsplit(":", 1)[-1] in ("date", "price"):
+            n += 1
+            rep.ob("R3", "rsu:" + ins, o["ok"], o["detail"], o["site"], key="R3:rsu:" + ins)
+    if n < 2:
+        rep.unresolved("R3", "rsu-row-fields", f"only {n} of the RSU row's date/price fields were found by the per-path synthesis")
     rep.ob("R3", "rsu:no-awards→error", found, "without an awards file the RSU arm returns MissingFairMarketValue" if found else
            "the RSU arm has no error path for a missing awards file (a cost would have to be invented)", b.loc(), key="R3:rsu:no-awards")
 
